@@ -140,7 +140,7 @@ func properties() map[string]*PropertySpec {
 		Labels:    c15Labels,
 		Bounds:    ps["C03"].Bounds, Outside: ps["C03"].Outside, Stubs: ps["C03"].Stubs,
 	}
-	ps["C09"] = &PropertySpec{ID: "C09", Level: "model_checking",
+	ps["C09"] = &PropertySpec{ID: "C09", Level: "model_checking", Panics: true,
 		Instances: func(tier string) []*Instance {
 			var out []*Instance
 			for _, l := range allLangs() {
